@@ -133,11 +133,13 @@ Fixpoint spec_obs_list (ops : list op) (s i : list obs) : bool :=
   | _, _, _ => false
   end.
 
-Definition spec_run scripts its nev roots ops : list obs * list N * N * list (cid * bool) :=
+(** [ai]: the parameter [ask_inner] of Spec.v (false = the reference) *)
+Definition spec_run_with (ai : bool) scripts its nev roots ops : list obs * list N * N * list (cid * bool) :=
   let s0 := s_init scripts its nev in
   let (s1, regs) := s_build_roots roots s0 in
-  let (s2, obs) := s_do_ops FUEL ops regs s1 [] in
+  let (s2, obs) := s_do_ops_with ai FUEL ops regs s1 [] in
   (obs, map snd (firstn (length scripts) (sheap s2)), sfcalls s2, sseen s2).
+Definition spec_run := spec_run_with false.
 
 (** multi-threaded cases: cell (length scripts + i) is (iterator-seq its[i]), as in [init_m] *)
 Definition spec_run_mt scripts its nev roots ops : list obs * list N * N * list (cid * bool) :=
@@ -175,8 +177,13 @@ Fixpoint all_equal {A} (e : A -> A -> bool) (l : list A) : bool :=
 Definition spec_ok (c : case) (o : out) : bool :=
   match c, o with
   | CSt scripts its nev roots ops, OSt obs cnt thr fc sn _ =>
-      let '(sobs, scnt, sfc, ssn) := spec_run scripts its nev roots ops in
-      spec_obs_list ops sobs obs && list_eqb N.eqb scnt cnt && N.eqb sfc fc && list_eqb seen_eqb ssn sn
+      (* the property does not say whether following a returned lazy seq asks the lazy seqs on the
+         way (Spec.v, [ask_inner]): the implementation may agree with either reading.  [if], not
+         [||]: the second run is only evaluated when the first disagrees *)
+      let agrees (ai : bool) :=
+        let '(sobs, scnt, sfc, ssn) := spec_run_with ai scripts its nev roots ops in
+        spec_obs_list ops sobs obs && list_eqb N.eqb scnt cnt && N.eqb sfc fc && list_eqb seen_eqb ssn sn in
+      if agrees false then true else agrees true
   | CMt scripts its nev roots progs, OMt (Done obss cnt thr _) =>
       (* nobody is stuck; at most one successful run per producer; every thread sees what a lone
          consumer sees (schedule-independent producers), or, with the shared counter, what the
